@@ -81,6 +81,9 @@ def run(ctx):
         r0 = recs[len(recs) // 2]
         res.sample({"step": r0.brief(), "dds": r0.real["value"], "plain": r0.ref["value"], "executed": r0.real["log"],
                     "source": progs.render_world(r0.world, "extmod")})
+    # language features outside the model (classes, inheritance, import aliases, ...): real dds against plain execution only
+    from . import c01x
+    c01x.run_extended(ctx, res, thorough)
     pipeline.close_ref()
     # the hypotheses of C01.sig_sound / memo_correct / history_correct on everything that was generated
     res.count("universe_function_versions", uc.functions)
